@@ -181,6 +181,7 @@ func ParseExprEx(file *token.File, src []byte, offset int, mode Mode) (expr ast.
 				panic(e)
 			}
 		}
+		p.errors.Sort()
 		err = p.errors
 	}()
 
